@@ -131,7 +131,9 @@ func init() {
 				return []TV{tvList([]TV{tvList([]TV{args[0]})})}, flds
 			}},
 		trFn{table: "TransWriters", name: "writerWrapper_Sync",
-			gen: func(r *Rand) ([]TV, []trFld) { return nil, []trFld{{"w", tvList([]TV{tvInt(0), tvInt(int64(r.Intn(4)))})}} },
+			gen: func(r *Rand) ([]TV, []trFld) {
+				return nil, []trFld{{"w", tvList([]TV{tvInt(0), tvInt(int64(r.Intn(4)))})}}
+			},
 			run: func(_ []TV, flds []trFld) ([]TV, []trFld) {
 				err := zapcore.AddSync(trWriterOf(fldOf(flds, "w"), map[string]interface{}{}).(*trPlainW)).Sync()
 				if err != nil {
@@ -140,7 +142,9 @@ func init() {
 				return []TV{tvList(nil)}, flds
 			}},
 		trFn{table: "TransWriters", name: "Lock",
-			gen: func(r *Rand) ([]TV, []trFld) { return []TV{tvList([]TV{tvInt(int64(1 + r.Intn(2))), tvInt(int64(r.Intn(4)))})}, nil },
+			gen: func(r *Rand) ([]TV, []trFld) {
+				return []TV{tvList([]TV{tvInt(int64(1 + r.Intn(2))), tvInt(int64(r.Intn(4)))})}, nil
+			},
 			run: func(args []TV, flds []trFld) ([]TV, []trFld) {
 				ws := trWriterOf(args[0], map[string]interface{}{}).(zapcore.WriteSyncer)
 				res := zapcore.Lock(ws)
